@@ -72,6 +72,77 @@ def register(w):
         "properties": ["C18", "C14"],
     })
 
+    # ---- term builders used by the fusion rules ---------------------------------------------
+    C.register(w, {
+        "key": f"{F}::make_Select",
+        "params": {"source": "py", "selection": "py"},
+        "requires": ["wf(selection)"],
+        "raises": {},
+        "ensures": ["implies(is_identity_lambda(selection), same(result, source))",
+                    "implies(not is_identity_lambda(selection), "
+                    "same(result, ast.Call(ast.Name('Select'), [source, selection], [])))"],
+        "modifies": [],
+        "properties": ["C18", "C14", "C02"],
+    })
+    C.register(w, {
+        "key": f"{F}::_is_method_call_on_first",
+        "params": {"node": "py"},
+        "requires": ["isinstance(node, ast.Call)", "wf(node)"],
+        "raises": {},
+        "ensures": ["iff(result, isinstance(node.func, ast.Attribute) and "
+                    "isinstance(node.func.value, ast.Call) and "
+                    "isinstance(node.func.value.func, ast.Name) and "
+                    "node.func.value.func.id == 'First')"],
+        "ret": "bool",
+        "modifies": [],
+        "properties": ["C18"],
+    })
+    C.register(w, {
+        "key": f"{F}::_is_plain_positional_lambda_call",
+        "params": {"node": "py"},
+        "requires": ["isinstance(node, ast.Call)", "wf(node)", "isinstance(node.func, ast.Lambda)"],
+        "raises": {},
+        "ensures": ["implies(result, len(node.keywords) == 0 and "
+                    "len(node.func.args.args) == len(node.args))"],
+        "ret": "bool",
+        "modifies": [],
+        "properties": ["C18", "C02"],
+    })
+
+    C.register(w, {
+        "key": f"{F}::arg_name",
+        "params": {},
+        "ensures": [],
+        "ret": "str",
+        "abstract": True, "trusted": True,
+        "assumes": ["arg_name() returns some string (a fresh name from a global counter); "
+                    "freshness matters to C02, not to C18"],
+        "properties": ["C18", "C14"],
+    })
+    C.register(w, {
+        "key": f"{F}::make_args_unique",
+        "params": {"a": "py"},
+        "requires": ["isinstance(a, ast.Lambda)", "good(a)"],
+        "ensures": ["isinstance(result, ast.Lambda)", "good(result)",
+                    "len(result.args.args) == len(a.args.args)"],
+        "fresh": "deep",
+        "abstract": True, "trusted": True,
+        "assumes": ["make_args_unique (deepcopy + inner renaming visitor) returns a well-formed "
+                    "Lambda of query shape with the same number of parameters: NOT verified here; "
+                    "its semantic effect is exercised by engine B (C02)"],
+        "properties": ["C18", "C14"],
+    })
+    C.register(w, {
+        "key": f"{F}::convolute",
+        "params": {"ast_g": "py", "ast_f": "py"},
+        "requires": ["isinstance(ast_g, ast.Lambda)", "isinstance(ast_f, ast.Lambda)",
+                     "good(ast_g)", "good(ast_f)"],
+        "raises": {},
+        "ensures": ["isinstance(result, ast.Lambda)", "len(result.args.args) == 1", "good(result)"],
+        "modifies": [],
+        "properties": ["C18", "C14"],
+    })
+
 
 _reg = register
 
